@@ -557,7 +557,7 @@ func (e *Engine) runPath(fr *Frame, st *State, stack *[]work) (Outcome, bool) {
 					live = append(live, b)
 					continue
 				}
-				if b.lazy && !e.cfg.EagerFeas {
+				if b.lazy && !e.cfg.EagerFeas && st.unchecked < e.bound("lazy_depth", 6) {
 					if !b.cond.IsFalse() {
 						live = append(live, b)
 					}
@@ -569,6 +569,13 @@ func (e *Engine) runPath(fr *Frame, st *State, stack *[]work) (Outcome, bool) {
 			}
 			if len(live) == 0 {
 				return Outcome{}, false
+			}
+			if len(res.branches) > 0 && res.branches[0].st == nil {
+				if res.branches[0].lazy && !e.cfg.EagerFeas && st.unchecked < e.bound("lazy_depth", 6) {
+					st.unchecked++
+				} else {
+					st.unchecked = 0
+				}
 			}
 			for i := len(live) - 1; i >= 1; i-- {
 				b := live[i]
